@@ -1,22 +1,28 @@
 import Gimli.Spec.Leb
+import Gimli.Spec.Frame
 import Gimli.Model.Cfi
 /-!
 # Spec: how call-frame instructions are encoded (DWARF 5 §6.4.2 / §7.24, GNU and AArch64 extensions)
 
-`Encodes e asz aarch64 i bs`: the byte string `bs` is *an* encoding of instruction `i` in a
-section with byte order `e` and address size `asz` (and, for `DW_CFA_AARCH64_negate_ra_state`, an
-AArch64 consumer).  Declarative: opcode table + operand encodings, with LEB128 operands described
-by `Spec.IsLebEnc` / `Spec.ulebVal` (every encoding of the value, padded ones included, up to the
-10 bytes a 64-bit consumer reads).
+`Encodes c pos i bs`: the byte string `bs`, found at offset `pos` of its section, is *an* encoding
+of instruction `i` for a consumer configured by `c` (byte order, address size, vendor, the
+section bases, and — for the instructions of an FDE whose CIE has an `R` augmentation — the
+`DW_EH_PE` pointer encoding of addresses).  Declarative: opcode table + operand encodings, with
+LEB128 operands described by `Spec.IsLebEnc` / `Spec.ulebVal` / `Spec.slebVal` (every encoding of
+the value, padded ones included, up to the 10 bytes a 64-bit consumer reads).
 
 `DW_CFA_advance_loc1/2/4` and the primary-opcode `DW_CFA_advance_loc` all denote `advanceLoc`,
 `DW_CFA_offset` and `DW_CFA_offset_extended` both denote `offset`, `DW_CFA_restore(_extended)` both
 denote `restore` — as in gimli's `CallFrameInstruction`.
 
-Not covered here (hence the theorem names `decode_*_partial`): `DW_CFA_set_loc` whose operand is
-read through a `DW_EH_PE` pointer encoding (FDEs of a CIE with an `R` augmentation; pointer
-encodings are C05's); for that the tie is the differential run and the harness's independent
-decoder.
+`DW_CFA_set_loc` has two forms.  Without a pointer encoding its operand is a plain address of the
+CIE's address size.  With a pointer encoding `enc` it is an *encoded pointer* in the sense of
+C05's Spec (`Spec/Frame.lean`, LSB "DWARF Exception Header Encoding"): an `Operand` in the value
+format of the low nibble, added modulo the address size to the base selected by the application
+bits (`Frame.neededBase`; for `pcrel` the section address plus the offset of the operand itself);
+`enc` must be a defined encoding (`Frame.validEncoding`) other than `omit`, not `aligned` (gimli
+does not support it), and not `indirect` (an unwinder cannot dereference); `funcrel` has no base
+inside an instruction stream, so it never encodes anything.
 -/
 namespace Gimli.Spec.Cfi
 open Gimli Gimli.Cfi Gimli.Spec
@@ -38,47 +44,83 @@ def Fixed (e : Endian) (n v : Nat) (bs : Bytes) : Prop := bs = Ints.toBytes e n 
 /-- a block operand: ULEB128 length, then that many bytes -/
 def Block (ex : Bytes) (bs : Bytes) : Prop := ∃ l, ULeb ex.length l ∧ bs = l ++ ex
 
-inductive Encodes (e : Endian) (asz : Nat) (aarch64 : Bool) : Instr → Bytes → Prop
+/-- the 64-bit two's complement pattern of a signed number -/
+def pattern64 (v : Int) : Nat := (v % 2 ^ 64).toNat
+
+/-- sign extension of an `n`-byte pattern `v < 2^(8n)` to 64 bits -/
+def signExtend (n v : Nat) : Nat := if v < 2 ^ (8 * n - 1) then v else v + 2 ^ 64 - 2 ^ (8 * n)
+
+/-- `bs` holds the operand `x` of an encoded pointer in the value format `enc mod 16`
+(LSB table "DWARF Exception Header value format"); `x` is a 64-bit pattern, negative operands of
+the signed formats being their two's complement -/
+inductive Operand (e : Endian) (asz : Nat) (enc : Nat) : Nat → Bytes → Prop
+  | absptr (x : Nat) (bs : Bytes) : enc % 16 = 0x00 → (asz = 1 ∨ asz = 2 ∨ asz = 4 ∨ asz = 8) →
+      Fixed e asz x bs → Operand e asz enc x bs
+  | uleb128 (x : Nat) (bs : Bytes) : enc % 16 = 0x01 → ULeb x bs → Operand e asz enc x bs
+  | udata2 (x : Nat) (bs : Bytes) : enc % 16 = 0x02 → Fixed e 2 x bs → Operand e asz enc x bs
+  | udata4 (x : Nat) (bs : Bytes) : enc % 16 = 0x03 → Fixed e 4 x bs → Operand e asz enc x bs
+  | udata8 (x : Nat) (bs : Bytes) : enc % 16 = 0x04 → Fixed e 8 x bs → Operand e asz enc x bs
+  | sleb128 (v : Int) (bs : Bytes) : enc % 16 = 0x09 → SLeb v bs → Operand e asz enc (pattern64 v) bs
+  | sdata2 (v : Nat) (bs : Bytes) : enc % 16 = 0x0a → Fixed e 2 v bs → Operand e asz enc (signExtend 2 v) bs
+  | sdata4 (v : Nat) (bs : Bytes) : enc % 16 = 0x0b → Fixed e 4 v bs → Operand e asz enc (signExtend 4 v) bs
+  | sdata8 (v : Nat) (bs : Bytes) : enc % 16 = 0x0c → Fixed e 8 v bs → Operand e asz enc (signExtend 8 v) bs
+
+/-- the pointer-decoding parameters of an instruction iterator: the `.eh_frame` bases the caller
+supplied, the CIE's address size, and no function base -/
+def peParams (c : DecodeCfg) : CfiEntry.PeParams :=
+  { bases := { sect := c.params.sectionBase, text := c.params.textBase, data := c.params.dataBase },
+    funcBase := none, asz := c.params.addressSize }
+
+inductive Encodes (c : DecodeCfg) (pos : Nat) : Instr → Bytes → Prop
   -- primary opcodes (high two bits)
-  | advanceLoc (d : Nat) : d < 64 → Encodes e asz aarch64 (.advanceLoc d) [UInt8.ofNat (0x40 + d)]
+  | advanceLoc (d : Nat) : d < 64 → Encodes c pos (.advanceLoc d) [UInt8.ofNat (0x40 + d)]
   | offset (r : Reg) (o : Nat) (bo : Bytes) : r.toNat < 64 → ULeb o bo →
-      Encodes e asz aarch64 (.offset r o) (UInt8.ofNat (0x80 + r.toNat) :: bo)
-  | restore (r : Reg) : r.toNat < 64 → Encodes e asz aarch64 (.restore r) [UInt8.ofNat (0xc0 + r.toNat)]
+      Encodes c pos (.offset r o) (UInt8.ofNat (0x80 + r.toNat) :: bo)
+  | restore (r : Reg) : r.toNat < 64 → Encodes c pos (.restore r) [UInt8.ofNat (0xc0 + r.toNat)]
   -- extended opcodes
-  | nop : Encodes e asz aarch64 .nop [0x00]
-  | setLoc (a : Nat) (ba : Bytes) : (asz = 1 ∨ asz = 2 ∨ asz = 4 ∨ asz = 8) → Fixed e asz a ba →
-      Encodes e asz aarch64 (.setLoc a) (0x01 :: ba)
-  | advanceLoc1 (d : Nat) (bd : Bytes) : Fixed e 1 d bd → Encodes e asz aarch64 (.advanceLoc d) (0x02 :: bd)
-  | advanceLoc2 (d : Nat) (bd : Bytes) : Fixed e 2 d bd → Encodes e asz aarch64 (.advanceLoc d) (0x03 :: bd)
-  | advanceLoc4 (d : Nat) (bd : Bytes) : Fixed e 4 d bd → Encodes e asz aarch64 (.advanceLoc d) (0x04 :: bd)
+  | nop : Encodes c pos .nop [0x00]
+  | setLoc (a : Nat) (ba : Bytes) : c.addressEncoding = none →
+      (c.params.addressSize = 1 ∨ c.params.addressSize = 2 ∨ c.params.addressSize = 4 ∨ c.params.addressSize = 8) →
+      Fixed c.endian c.params.addressSize a ba → Encodes c pos (.setLoc a) (0x01 :: ba)
+  /-- `DW_CFA_set_loc` under the FDE pointer encoding `enc`: base (selected by the application
+  bits; the operand sits at section offset `pos + 1`) plus operand, modulo the address size -/
+  | setLocEncoded (enc b x : Nat) (bx : Bytes) : c.addressEncoding = some enc →
+      Frame.validEncoding enc → enc ≠ 0xff → CfiEntry.peApplication enc ≠ 0x50 → CfiEntry.peIndirect enc = false →
+      (1 ≤ c.params.addressSize ∧ c.params.addressSize ≤ 8) →
+      Frame.neededBase enc (peParams c) (pos + 1) = some b →
+      Operand c.endian c.params.addressSize enc x bx →
+      Encodes c pos (.setLoc ((b + x) % 2 ^ 64 % 2 ^ (8 * c.params.addressSize))) (0x01 :: bx)
+  | advanceLoc1 (d : Nat) (bd : Bytes) : Fixed c.endian 1 d bd → Encodes c pos (.advanceLoc d) (0x02 :: bd)
+  | advanceLoc2 (d : Nat) (bd : Bytes) : Fixed c.endian 2 d bd → Encodes c pos (.advanceLoc d) (0x03 :: bd)
+  | advanceLoc4 (d : Nat) (bd : Bytes) : Fixed c.endian 4 d bd → Encodes c pos (.advanceLoc d) (0x04 :: bd)
   | offsetExtended (r : Reg) (o : Nat) (br bo : Bytes) : RegEnc r br → ULeb o bo →
-      Encodes e asz aarch64 (.offset r o) (0x05 :: (br ++ bo))
-  | restoreExtended (r : Reg) (br : Bytes) : RegEnc r br → Encodes e asz aarch64 (.restore r) (0x06 :: br)
-  | undefined (r : Reg) (br : Bytes) : RegEnc r br → Encodes e asz aarch64 (.undefined r) (0x07 :: br)
-  | sameValue (r : Reg) (br : Bytes) : RegEnc r br → Encodes e asz aarch64 (.sameValue r) (0x08 :: br)
+      Encodes c pos (.offset r o) (0x05 :: (br ++ bo))
+  | restoreExtended (r : Reg) (br : Bytes) : RegEnc r br → Encodes c pos (.restore r) (0x06 :: br)
+  | undefined (r : Reg) (br : Bytes) : RegEnc r br → Encodes c pos (.undefined r) (0x07 :: br)
+  | sameValue (r : Reg) (br : Bytes) : RegEnc r br → Encodes c pos (.sameValue r) (0x08 :: br)
   | register (d s : Reg) (bd bs : Bytes) : RegEnc d bd → RegEnc s bs →
-      Encodes e asz aarch64 (.register d s) (0x09 :: (bd ++ bs))
-  | rememberState : Encodes e asz aarch64 .rememberState [0x0a]
-  | restoreState : Encodes e asz aarch64 .restoreState [0x0b]
+      Encodes c pos (.register d s) (0x09 :: (bd ++ bs))
+  | rememberState : Encodes c pos .rememberState [0x0a]
+  | restoreState : Encodes c pos .restoreState [0x0b]
   | defCfa (r : Reg) (o : Nat) (br bo : Bytes) : RegEnc r br → ULeb o bo →
-      Encodes e asz aarch64 (.defCfa r o) (0x0c :: (br ++ bo))
-  | defCfaRegister (r : Reg) (br : Bytes) : RegEnc r br → Encodes e asz aarch64 (.defCfaRegister r) (0x0d :: br)
-  | defCfaOffset (o : Nat) (bo : Bytes) : ULeb o bo → Encodes e asz aarch64 (.defCfaOffset o) (0x0e :: bo)
-  | defCfaExpression (ex bx : Bytes) : Block ex bx → Encodes e asz aarch64 (.defCfaExpression ex) (0x0f :: bx)
+      Encodes c pos (.defCfa r o) (0x0c :: (br ++ bo))
+  | defCfaRegister (r : Reg) (br : Bytes) : RegEnc r br → Encodes c pos (.defCfaRegister r) (0x0d :: br)
+  | defCfaOffset (o : Nat) (bo : Bytes) : ULeb o bo → Encodes c pos (.defCfaOffset o) (0x0e :: bo)
+  | defCfaExpression (ex bx : Bytes) : Block ex bx → Encodes c pos (.defCfaExpression ex) (0x0f :: bx)
   | expression (r : Reg) (ex br bx : Bytes) : RegEnc r br → Block ex bx →
-      Encodes e asz aarch64 (.expression r ex) (0x10 :: (br ++ bx))
+      Encodes c pos (.expression r ex) (0x10 :: (br ++ bx))
   | offsetExtendedSf (r : Reg) (o : Int) (br bo : Bytes) : RegEnc r br → SLeb o bo →
-      Encodes e asz aarch64 (.offsetExtendedSf r o) (0x11 :: (br ++ bo))
+      Encodes c pos (.offsetExtendedSf r o) (0x11 :: (br ++ bo))
   | defCfaSf (r : Reg) (o : Int) (br bo : Bytes) : RegEnc r br → SLeb o bo →
-      Encodes e asz aarch64 (.defCfaSf r o) (0x12 :: (br ++ bo))
-  | defCfaOffsetSf (o : Int) (bo : Bytes) : SLeb o bo → Encodes e asz aarch64 (.defCfaOffsetSf o) (0x13 :: bo)
+      Encodes c pos (.defCfaSf r o) (0x12 :: (br ++ bo))
+  | defCfaOffsetSf (o : Int) (bo : Bytes) : SLeb o bo → Encodes c pos (.defCfaOffsetSf o) (0x13 :: bo)
   | valOffset (r : Reg) (o : Nat) (br bo : Bytes) : RegEnc r br → ULeb o bo →
-      Encodes e asz aarch64 (.valOffset r o) (0x14 :: (br ++ bo))
+      Encodes c pos (.valOffset r o) (0x14 :: (br ++ bo))
   | valOffsetSf (r : Reg) (o : Int) (br bo : Bytes) : RegEnc r br → SLeb o bo →
-      Encodes e asz aarch64 (.valOffsetSf r o) (0x15 :: (br ++ bo))
+      Encodes c pos (.valOffsetSf r o) (0x15 :: (br ++ bo))
   | valExpression (r : Reg) (ex br bx : Bytes) : RegEnc r br → Block ex bx →
-      Encodes e asz aarch64 (.valExpression r ex) (0x16 :: (br ++ bx))
-  | argsSize (n : Nat) (bn : Bytes) : ULeb n bn → Encodes e asz aarch64 (.argsSize n) (0x2e :: bn)
-  | negateRaState : aarch64 = true → Encodes e asz aarch64 .negateRaState [0x2d]
+      Encodes c pos (.valExpression r ex) (0x16 :: (br ++ bx))
+  | argsSize (n : Nat) (bn : Bytes) : ULeb n bn → Encodes c pos (.argsSize n) (0x2e :: bn)
+  | negateRaState : c.vendor = .aarch64 → Encodes c pos .negateRaState [0x2d]
 
 end Gimli.Spec.Cfi
